@@ -5,6 +5,7 @@ first other character; the token's position, the state after it and the diagnost
 the identifier's LENGTH only; whether it is a keyword depends on membership in the keyword
 table, which a renaming that avoids keywords preserves.
 -/
+import NormModel.Proofs.Ident
 import NormModel.Proofs.Opaque
 namespace Norm.C18
 open Norm
@@ -28,6 +29,35 @@ theorem rename_same_length (b1 b2 tl : List Char) (s1 s2 : LexSt) (v : List Char
   rw [ident_body b1 tl s1 v h1 hb1 hstop, ident_body b2 tl s2 v h2 hb2 hstop]
   refine ⟨?_, by simp [hlen]⟩
   rw [hs]; simp [shiftCols, hlen]
+
+/-- **Renaming an identifier changes nothing but its value** (token level): two identifiers of the
+same length — neither a keyword, each followed by the same text, which begins with neither an
+identifier character nor a quote — are lexed from the same state to the same state; the two
+tokens have the same type, position and extent and differ only in the spelling they carry. -/
+theorem rename_token (u : Uni) (c0 d0 : Char) (cs ds tl : List Char) (hlen : cs.length = ds.length)
+    (hc0 : isIdStart c0 = true) (hd0 : isIdStart d0 = true)
+    (hcs : ∀ c ∈ cs, isIdChar c = true) (hds : ∀ c ∈ ds, isIdChar c = true)
+    (hk1 : assoc Generated.keywords (String.ofList (c0 :: cs)) = none)
+    (hk2 : assoc Generated.keywords (String.ofList (d0 :: ds)) = none)
+    (hstop : ∀ c, tl.head? = some c → isIdChar c = false ∧ c ≠ '\'' ∧ c ≠ '"')
+    (s1 s2 : LexSt) (h1 : s1.rest = c0 :: cs ++ tl) (h2 : s2 = { s1 with rest := d0 :: ds ++ tl }) :
+    ∃ s' t1 t2, trySubLexers u s1 = .ok (some (s', t1)) ∧ trySubLexers u s2 = .ok (some (s', t2)) ∧
+      t1.type = "IDENTIFIER" ∧ t2.type = "IDENTIFIER" ∧ t1.line = t2.line ∧ t1.col = t2.col ∧
+      t1.start = t2.start ∧ t1.stop = t2.stop ∧
+      t1.value = some (String.ofList (c0 :: cs)) ∧ t2.value = some (String.ofList (d0 :: ds)) := by
+  obtain ⟨a, t1, a1, a2, a3, a4, a5, a6, a7, a8, a9, a10, a11, a12⟩ := ident_valid u c0 cs tl hc0 hcs hk1 hstop s1 h1
+  obtain ⟨b, t2, b1, b2, b3, b4, b5, b6, b7, b8, b9, b10, b11, b12⟩ :=
+    ident_valid u d0 ds tl hd0 hds hk2 hstop s2 (by rw [h2])
+  have hs : a = b := by
+    cases a; cases b
+    simp only [LexSt.mk.injEq]
+    simp only at a6 a7 a8 a9 a10 b6 b7 b8 b9 b10
+    subst h2
+    simp only at b7 b8 b9 b10
+    refine ⟨by rw [a6, b6], by rw [a10, b10, hlen], by rw [a9, b9], by rw [a8, b8, hlen], by rw [a7, b7]⟩
+  subst hs
+  subst h2
+  refine ⟨a, t1, t2, a1, b1, a2, b2, by rw [a4, b4], by rw [a5, b5], by rw [a11, b11], by rw [a12, b12, hlen], a3, b3⟩
 
 /-- keywords are exactly the keys of the regenerated table, whose token names are distinct
 from `IDENTIFIER`: a spelling outside the table is an IDENTIFIER with its own text as value -/
